@@ -67,9 +67,11 @@ struct Sut {
 }
 
 impl Sut {
-    fn new(data_blocks: usize) -> Self {
+    /// `slack` bytes follow the last whole block: a device whose size is not a multiple of the block
+    /// size has exactly `data_blocks` usable blocks, the trailing partial one is out of bounds.
+    fn new(data_blocks: usize, slack: u64) -> Self {
         let mut m = FreeSpaceManager::new();
-        m.initialize((START + data_blocks as u64) * BLOCK).expect("initialize");
+        m.initialize((START + data_blocks as u64) * BLOCK + slack).expect("initialize");
         Sut { m }
     }
 }
@@ -179,7 +181,7 @@ fn alphabet(data_blocks: usize) -> Vec<Call> {
     calls
 }
 
-fn exhaustive(report: &mut Report, data_blocks: usize, max_depth: usize) {
+fn exhaustive(report: &mut Report, data_blocks: usize, slack: u64, max_depth: usize) {
     let calls = alphabet(data_blocks);
     let mut seen: HashMap<Model, Vec<Call>> = HashMap::new();
     let mut queue: VecDeque<(Model, Vec<Call>)> = VecDeque::new();
@@ -194,7 +196,7 @@ fn exhaustive(report: &mut Report, data_blocks: usize, max_depth: usize) {
         }
         for &call in &calls {
             // rebuild the real manager in this state by replaying the path
-            let mut sut = Sut::new(data_blocks);
+            let mut sut = Sut::new(data_blocks, slack);
             let mut model = Model::new(data_blocks);
             for &c in &path {
                 if let Err(e) = step(&mut sut, &mut model, c) {
@@ -242,7 +244,8 @@ fn exhaustive(report: &mut Report, data_blocks: usize, max_depth: usize) {
 fn random_run(report: &mut Report, seed: u64, index: u64, steps: usize) {
     let mut rng = Rng::derive(seed, index, 0xf5);
     let data_blocks = *rng.pick(&[48usize, 64, 200, 1000, 4096]);
-    let mut sut = Sut::new(data_blocks);
+    let slack = *rng.pick(&[0u64, 0, 1, 512, 2048, 4095]);
+    let mut sut = Sut::new(data_blocks, slack);
     let mut model = Model::new(data_blocks);
     let mut live: Vec<(u64, u64)> = Vec::new();
     let mut log: Vec<Call> = Vec::new();
@@ -361,12 +364,20 @@ fn find_alloc(_log: &[Call], model: &Model, n: u64, live: &[(u64, u64)]) -> u64 
 pub fn run(args: &Args) -> Report {
     let mut report = Report::new(
         "fsm",
-        "free-space manager vs bitmap model: every (reachable state, call) pair on 3..N-block devices over an alphabet of all allocate sizes and all release ranges in a window incl. reserved/out-of-range/overflowing; plus seeded random sequences on 48..4096-block devices. distinct = (state bitmap, call) for the exhaustive part, (run count, free total, outcome) for the random part; rejected releases of nonsense ranges are not counted non-trivial",
+        "free-space manager vs bitmap model: every (reachable state, call) pair on 3..N-block devices (also with sizes that are not a whole number of blocks) over an alphabet of all allocate sizes and all release ranges in a window incl. reserved/out-of-range/overflowing; plus seeded random sequences on 48..4096-block devices. distinct = (state bitmap, call) for the exhaustive part, (run count, free total, outcome) for the random part; rejected releases of nonsense ranges are not counted non-trivial",
     );
     let thorough = args.tier == "thorough";
     let max_blocks = if thorough { 8 } else { 6 };
     for data_blocks in 3..=max_blocks {
-        exhaustive(&mut report, data_blocks, 64);
+        exhaustive(&mut report, data_blocks, 0, 64);
+        if !report.violations.is_empty() {
+            return report;
+        }
+    }
+    // devices whose size is not a whole number of blocks: the trailing partial block is out of bounds
+    for (data_blocks, slack) in [(3usize, 1u64), (4, 2048), (5, 4095)] {
+        exhaustive(&mut report, data_blocks, slack, 64);
+        report.count("exhaustive_unaligned_devices", 1);
         if !report.violations.is_empty() {
             return report;
         }
